@@ -12,7 +12,8 @@ EXTENDS Iterator
 CONSTANTS N,            \* number of supported days
           Secs,         \* seconds of day used for window bounds (0, a sub-minute one, noon)
           Bounds,       \* interval-size bounds explored, in seconds (0 = no bound)
-          Unsound
+          Unsound,
+          ContinueAfterInfinite   \* TRUE = behaviour of the pinned tree (non-vacuity of BoundPartition)
 
 ASSUME DStart = 1 /\ DEnd = N + 1
 
@@ -87,9 +88,12 @@ Emit == /\ pc = "emit"
                iv    == IF B # 0 /\ Diff(end, start) > B
                         THEN [a |-> start, b |-> EndInstant, k |-> cur.k]
                         ELSE [a |-> start, b |-> end, k |-> cur.k]
-           IN out' = Append(out, iv)
+               infinite == B # 0 /\ Diff(end, start) > B
+           IN /\ out' = Append(out, iv)
+              \* an interval considered infinite ends the stream (R22: the pinned tree went on from where it had given up)
+              /\ rem' = IF infinite /\ ~ContinueAfterInfinite THEN <<>> ELSE rem
         /\ pc' = "idle"
-        /\ UNCHANGED <<Sched, from, to, B, curDate, rem, cur, startDate>>
+        /\ UNCHANGED <<Sched, from, to, B, curDate, cur, startDate>>
 
 Next == Finish \/ Begin \/ Consume \/ Jump \/ Emit
 Spec == Init /\ [][Next]_vars
@@ -121,6 +125,12 @@ BoundOk == (pc = "done" /\ B # 0 /\ to = <<N + 2, 0>> /\ ILt(from, EndInstant)) 
                  /\ got \in {exact, <<>>}
                  /\ (exact # <<>> /\ Diff(exact, from) <= B - 86400) => got = exact
                  /\ (exact # <<>> /\ Diff(exact, from) > B) => got = <<>>
+\* C02 / C08 under a bound: whatever is approximated, the reported intervals still partition [from, min(to, END))
+BoundPartition == (pc = "done" /\ B # 0) =>
+                    IF ~ILt(F, T) THEN Result = <<>>
+                    ELSE /\ Result # <<>> /\ Result[1].a = F /\ Result[Len(Result)].b = T
+                         /\ \A i \in DOMAIN Result : ILt(Result[i].a, Result[i].b)
+                         /\ \A i \in 1..(Len(Result) - 1) : Result[i].b = Result[i + 1].a
 \* the machine always terminates within the calendar (no run-away date)
 Progress == curDate <= N + 3
 
